@@ -1,6 +1,6 @@
 PID = "C07"
 WORKER = "w_c07"
-HEADER = "From Coq Require Import List ZArith QArith Qcanon.\nFrom Dimod Require Import Base.Util Model.Poly Model.HPoly Model.Samples Model.Comb Model.Solve Model.ChkC07.\nImport ListNotations."
+HEADER = "From Coq Require Import List ZArith QArith Qcanon.\nFrom Dimod Require Import Base.Util Model.Poly Model.HPoly Model.Samples Model.Comb Model.Feas Model.Solve Model.ChkC07.\nImport ListNotations."
 CHECK_FN = "check"
 N_QUICK = 960
 N_THOROUGH = 12000
@@ -21,8 +21,8 @@ TRUSTED = ["model: coq/theories/Model/Solve.v, ChkC07.v, Comb.v, Poly.v, HPoly.v
 ASSUMPTIONS = ["the coefficients a problem object reports define the submitted problem (C01)",
                "IEEE-754 arithmetic is exact on the small dyadic coefficients generated",
                "make_quadratic's reduction itself is C15's subject; here only the energies/labels of the returned sample set are decided against the submitted polynomial"]
-PARTIAL = ["RandomSampler, SimulatedAnnealingSampler, NullSampler, IdentitySampler: their search is not modelled; their sample sets are only monitored against the post-condition (variables, domains, energies by label)",
+PARTIAL = ["RandomSampler / SimulatedAnnealingSampler / IdentitySampler('random'): WHICH rows the PRNG / annealing schedule produces is not modelled; everything else is (from_samples_bqm on the rows they returned, the conversion back from Ising with the offset, row count and the given states as prefix: C07_search_agnostic_energy, C07_sa_search_agnostic_energy, C07_identity_random_prefix) and is compared exactly on every returned set",
            "TruncateComposite / PolyTruncateComposite with sorted_by='energy': np.argsort's order among equal energies is not pinned; the energy column is compared exactly with the model and the rows as a sub-multiset of the child's (energy,row) pairs",
-           "the exact solvers' rows are compared with the model enumeration as multisets (each assignment exactly once); the np.meshgrid / gray-code ORDER is modelled and proved to be a permutation of the product but not compared",
-           "IdentitySampler's documented rejections (insufficient initial states, tiling an empty set) are counted as trivial cases; any other exception of a valid stack is a violation",
-           "ExactCQMSolver: only hard constraints are generated; soft-constraint energies and violation details belong to C08"]
+           "IdentitySampler's documented rejections (ValueError) are compared with the model's None; any other exception of a valid stack is a violation",
+           "ExactCQMSolver: only hard constraints are generated; soft-constraint energies and violation details belong to C08 (the feasibility column is tied to C08's definition by C07_exact_cqm_feasible_column)",
+           "StructureComposite's 'child untouched on rejection' is stated on the functional model as independence from the child and observed through the recorder below the composite (zero calls)"]
